@@ -181,7 +181,7 @@ typedef struct {
 
 typedef struct {
         ISAL_SHA512_MB_ARGS_X8 args;
-        uint64_t lens[ISAL_SHA512_MAX_LANES];
+        DECLARE_ALIGNED(uint64_t lens[ISAL_SHA512_MAX_LANES], 16);
         uint64_t unused_lanes; //!< each byte is index (00, 01 or 00...03) of unused lanes, byte 2
                                //!< or 4 is set to FF as a flag
         ISAL_SHA512_LANE_DATA ldata[ISAL_SHA512_MAX_LANES];
